@@ -27,14 +27,14 @@ import (
 type Outcome string
 
 const (
-	OK         Outcome = "ok"          // reply: no error, state = destination
-	ErrSrc     Outcome = "err_src"     // reply: error, task stays in source state
-	ErrError   Outcome = "err_error"   // reply: error, task goes to ERROR
-	Unsendable Outcome = "unsendable"  // the MESSAGE call is refused by the master (HTTP error)
-	Silent     Outcome = "silent"      // no reply at all
-	Dup        Outcome = "dup"         // reply sent twice
-	Foreign    Outcome = "foreign"     // an extra reply under a foreign command id before the real one
-	Dies       Outcome = "dies"        // the task terminates (TASK_FAILED) instead of answering
+	OK         Outcome = "ok"         // reply: no error, state = destination
+	ErrSrc     Outcome = "err_src"    // reply: error, task stays in source state
+	ErrError   Outcome = "err_error"  // reply: error, task goes to ERROR
+	Unsendable Outcome = "unsendable" // the MESSAGE call is refused by the master (HTTP error)
+	Silent     Outcome = "silent"     // no reply at all
+	Dup        Outcome = "dup"        // reply sent twice
+	Foreign    Outcome = "foreign"    // an extra reply under a foreign command id before the real one
+	Dies       Outcome = "dies"       // the task terminates (TASK_FAILED) instead of answering
 )
 
 type Agent struct {
@@ -78,13 +78,13 @@ type Master struct {
 	offerSq  int
 	offers   map[string]*offerRec // outstanding offers
 	// scripting
-	Latency      time.Duration                                       // agent latency before TASK_RUNNING / replies
-	LaunchScript func(t *SimTask) string                             // "running" | "failed" | "silent" | "" (= running)
+	Latency      time.Duration                                        // agent latency before TASK_RUNNING / replies
+	LaunchScript func(t *SimTask) string                              // "running" | "failed" | "silent" | "" (= running)
 	CmdScript    func(t *SimTask, event string, cmdID string) Outcome // per target and transition event
 	HookScript   func(t *SimTask) (exit int, voluntary bool, respond bool)
-	KillScript   func(t *SimTask) string                             // "ack" | "silent" | "" (= ack)
-	OnCall       func(call *scheduler.Call) (status int)             // gate/fail individual calls; 0 = default
-	Reconcile    bool                                                // answer RECONCILE (default true)
+	KillScript   func(t *SimTask) string                 // "ack" | "silent" | "" (= ack)
+	OnCall       func(call *scheduler.Call) (status int) // gate/fail individual calls; 0 = default
+	Reconcile    bool                                    // answer RECONCILE (default true)
 	subscribeN   int
 	closed       bool
 }
@@ -635,7 +635,7 @@ func (m *Master) reply(t *SimTask, v interface{}) {
 
 func (m *Master) message(fw string, msg *scheduler.Call_Message) bool {
 	var head struct {
-		Name       string                                `json:"name"`
+		Name       string                               `json:"name"`
 		TargetList []controlcommands.MesosCommandTarget `json:"targetList"`
 	}
 	if err := json.Unmarshal(msg.Data, &head); err != nil {
